@@ -55,6 +55,7 @@ import (
 
 	"filippo.io/age/internal/format"
 	"filippo.io/age/internal/stream"
+	"filippo.io/age/internal/verifhook"
 )
 
 // An Identity is passed to Decrypt to unwrap an opaque file key from a
@@ -127,6 +128,7 @@ func Encrypt(dst io.Writer, recipients ...Recipient) (io.WriteCloser, error) {
 		return nil, errors.New("no recipients specified")
 	}
 
+	verifhook.Point("age.encrypt")
 	fileKey := make([]byte, fileKeySize)
 	if _, err := rand.Read(fileKey); err != nil {
 		return nil, err
@@ -210,6 +212,7 @@ func Decrypt(src io.Reader, identities ...Identity) (io.Reader, error) {
 		return nil, errors.New("no identities specified")
 	}
 
+	verifhook.Point("age.decrypt")
 	hdr, payload, err := format.Parse(src)
 	if err != nil {
 		return nil, fmt.Errorf("failed to read header: %w", err)
